@@ -826,7 +826,10 @@ func LookupTerminfo(name string) (*Terminfo, error) {
 		t.SetFgRGB == "" &&
 		t.SetBgRGB == "" {
 
-		// Supply vanilla ISO 8613-6:1994 24-bit color sequences.
+		// Supply vanilla ISO 8613-6:1994 24-bit color sequences,
+		// on a copy: the registered entry is shared by every lookup.
+		nt := *t
+		t = &nt
 		t.SetFgRGB = "\x1b[38;2;%p1%d;%p2%d;%p3%dm"
 		t.SetBgRGB = "\x1b[48;2;%p1%d;%p2%d;%p3%dm"
 		t.SetFgBgRGB = "\x1b[38;2;%p1%d;%p2%d;%p3%d;" +
@@ -834,6 +837,9 @@ func LookupTerminfo(name string) (*Terminfo, error) {
 	}
 
 	if add256color {
+		// also on a copy, see above
+		nt := *t
+		t = &nt
 		t.Colors = 256
 		t.SetFg = "\x1b[%?%p1%{8}%<%t3%p1%d%e%p1%{16}%<%t9%p1%{8}%-%d%e38;5;%p1%d%;m"
 		t.SetBg = "\x1b[%?%p1%{8}%<%t4%p1%d%e%p1%{16}%<%t10%p1%{8}%-%d%e48;5;%p1%d%;m"
